@@ -5,7 +5,7 @@ from ..callgraph import callee_is
 from ..mirutil import (root_place, op_root, deep_root, origin, defuse, calls_in, loops_of, success_edges)
 from ..totality import check_region, closure_region
 from ..intervals import analyse
-from .c08 import READER_CALLS, SHRINK_CALLS
+from .c08 import READER_CALLS, SHRINK_CALLS, loop_makes_progress
 from .. import anchors as A
 
 ALLOC_CALLS = ("vec::from_elem", "smallvec::SmallVec::from_elem", "smallvec::SmallVec::with_capacity", "vec::Vec::with_capacity",
@@ -42,12 +42,8 @@ def r1_decoders_total(cx):
             if li.next_calls and li.exhaust_exits:
                 kind = "iterator"
             else:
-                pb = [bi for bi in li.blocks if b.blocks[bi]["term"]["k"] == "call" and callee_is(b.blocks[bi]["term"], *(READER_CALLS + SHRINK_CALLS))]
-                if pb:
-                    outside = [x for x in b.cfg.reach if x not in li.blocks]
-                    reach = b.cfg.reachable_from([s for s in b.cfg.succ.get(li.header, []) if s in li.blocks], avoid_blocks=pb + outside)
-                    if li.header not in reach:
-                        kind = "progress"
+                if loop_makes_progress(b, li):
+                    kind = "progress"
             cx.check("loop:" + b.path, kind is not None, site_of(b, li.header), "decoder loop terminates (%s)" % (kind or "no progress argument"))
     cx.floor("decoder-loops", n, 6, "loops in the decoders")
     # allocation sizes are bounded by a u8/u16 wire field
